@@ -16,11 +16,18 @@ def cases_of(c):
     return [cs for cs in c.cases if c.ops[cs[0]].startswith("case ")]
 
 
-def run_oracle(ctx, c, pid, known):
+def run_oracle(ctx, c, pid, known, exempt_model_marked=False):
     """Independent reference over implementation replies.  Lines the model attributes to a LISTED
     finding are skipped (and make the oracle forget the keys involved).  Returns
     (checked_lines, deviations) and records a violation for the first deviation."""
     checked, devs = 0, []
+    raw = []
+    if exempt_model_marked:
+        try:
+            with open(ctx.path(pid + ".model")) as f:
+                raw = f.read().split("\n")
+        except OSError:
+            raw = []
     for cs in cases_of(c):
         ops = [c.ops[i] for i in cs]
         impl = [c.impl[i] if i < len(c.impl) else "<missing>" for i in cs]
@@ -28,6 +35,8 @@ def run_oracle(ctx, c, pid, known):
         for j, i in enumerate(cs):
             fl = c.flags[i] if i < len(c.flags) else []
             if fl and all(f in known for f in fl):
+                skip.add(j)
+            elif exempt_model_marked and i < len(raw) and "\t#D:" in raw[i]:
                 skip.add(j)
         bad = kvspec.check_case(ops, impl, skip)
         checked += len(cs) - 1
